@@ -19,7 +19,7 @@ ASSUMPTIONS = [
 ]
 PLAN = {
     "quick": {"shards": 8, "shard_timeout": 400, "case_timeout": 25, "grammars": 150, "max_case_timeouts": 6},
-    "thorough": {"shards": 16, "shard_timeout": 3600, "case_timeout": 40, "grammars": 7000, "max_case_timeouts": 80},
+    "thorough": {"shards": 16, "shard_timeout": 3600, "case_timeout": 40, "grammars": 14000, "max_case_timeouts": 160},
 }
 THRESHOLDS = {
     "quick": {"nodes_compared": 20000, "nodes_under_lists": 2000, "programs_after_variation": 300, "repr:tree": 300, "repr:ge": 100, "repr:sge": 100, "repr:dsge": 100, "list_nodes_compared": 1000},
